@@ -39,7 +39,7 @@ def run_steps(sim, case, extra_ops=None, extra_v2=None):
     if extra_ops is None:
         extra_ops = [('churn', 2)]
     if cfg.get('tbl', 1) >= 2:
-        extra_ops = list(extra_v2 if extra_v2 is not None else extra_ops) + [('lagsnap', 2), ('hold', 2), ('stalereply', 1)]
+        extra_ops = list(extra_v2 if extra_v2 is not None else extra_ops) + [('lagsnap', 2), ('hold', 2), ('stalereply', 1), ('fig8', 1)]
     table = gen.op_table(cfg.get('profile', 'mixed'), extra_ops)
     resolved = []
     if cfg.get('boot', True):
@@ -71,6 +71,8 @@ def base_classes(sim):
         cl.add('log-compacted')
     if sim.counters.get('stale_replies_delivered'):
         cl.add('reply-of-earlier-term-delivered')
+    if sim.counters.get('fig8_state_reached'):
+        cl.add('figure-8-state-reached')
     if sim.counters.get('holds'):
         cl.add('slow-direction')
     if sim.counters.get('lagsnap_completed'):
